@@ -15,24 +15,7 @@ not modelled; the *structural* part is, exactly:
 -/
 namespace Badger
 
-/-- user-key range of a table -/
-def Tbl.keyRange (t : Tbl) : Option (Bytes × Bytes) :=
-  match t.smallest, t.biggest with
-  | some a, some b => some (a.key, b.key)
-  | _, _ => none
-
-/-- `keyRange.overlapsWith` on `getKeyRange` ranges (`key@MaxUint64 … key@0`): inclusive overlap of
-    user-key intervals; the empty range overlaps everything. -/
-def rangeOverlaps (r : Option (Bytes × Bytes)) (d : Bytes × Bytes) : Bool :=
-  match r with
-  | none => true
-  | some (lo, hi) => cmpBytes lo d.2 != .gt && cmpBytes hi d.1 != .lt
-
-def rangeExtend (r : Option (Bytes × Bytes)) (d : Bytes × Bytes) : Option (Bytes × Bytes) :=
-  match r with
-  | none => some d
-  | some (lo, hi) =>
-    some (if cmpBytes d.1 lo == .lt then d.1 else lo, if cmpBytes d.2 hi == .gt then d.2 else hi)
+-- `Tbl.keyRange`, `rangeOverlaps`, `rangeExtend`, `rangeOfTables` live in `Lsm.lean` (used by `compactOutput`).
 
 /-- `fillTablesL0ToLbase`: number of L0 tables taken from the front. -/
 def l0PrefixLen : List Tbl → Option (Bytes × Bytes) → Nat
@@ -41,9 +24,6 @@ def l0PrefixLen : List Tbl → Option (Bytes × Bytes) → Nat
     match t.keyRange with
     | none => 0
     | some d => if rangeOverlaps kr d then 1 + l0PrefixLen ts (rangeExtend kr d) else 0
-
-def rangeOfTables (ts : List Tbl) : Option (Bytes × Bytes) :=
-  ts.foldl (fun r t => match t.keyRange with | some d => rangeExtend r d | none => r) none
 
 /-- `overlappingTables(kr)` on a sorted level: indices `[left, right)`. -/
 def overlapIdx (tbls : List Tbl) (kr : Option (Bytes × Bytes)) : List Nat :=
